@@ -15,6 +15,9 @@
 //!                         `::Name(T) -> R`: a tuple-struct constructor
 //!   --transparent S       the one-field struct `S` is represented by its field (its Lean type is given by --type)
 //!   --bits Name=w         the type `Name` is a block of `w` bits (`BitVec w`; `& | ^ ! << >>` are the bit operations)
+//!   --enum E=V1(T)|V2     the variants of an enum defined in another file
+//!   --map C=get,set       a container with keyed elements (`c.get_mut(k)` is a borrow: `get c k : Option v`, `set c k v : c`)
+//!   --iter-mut C=map,mapS how `for (k, v) in &mut c` is a map (`map c (fun k v => v)`, `mapS c s (fun k v s => (v, s))`)
 //!   --struct S            emit a Lean structure for the struct `S` of the file (PhantomData fields dropped)
 //! a function name may be `Type::name` (a method of another impl of the same file; emitted as `Type.name`)
 use rs2lean::{translate, Options};
@@ -50,6 +53,21 @@ fn main() -> ExitCode {
                 "label" => o.source_label = v,
                 "struct" => o.structs.push(v),
                 "transparent" => o.transparent.push(v),
+                "enum" => match pair(&v) {
+                    Some(p) => o.enums.push(p),
+                    None => {
+                        eprintln!("rs2lean: --enum expects Name=V1(T)|V2, got `{v}`");
+                        return usage();
+                    }
+                },
+                "map" | "iter-mut" => match pair(&v).and_then(|(n, fs)| fs.split_once(',').map(|(a, b)| (n, a.trim().to_string(), b.trim().to_string()))) {
+                    Some(t) if flag == "map" => o.maps.push(t),
+                    Some(t) => o.iter_muts.push(t),
+                    None => {
+                        eprintln!("rs2lean: --{flag} expects Name=fn1,fn2, got `{v}`");
+                        return usage();
+                    }
+                },
                 "bits" => match pair(&v).and_then(|(a, b)| b.parse::<u32>().ok().map(|w| (a, w))) {
                     Some(p) => o.bits.push(p),
                     None => {
